@@ -6,7 +6,9 @@ the final drain; TLC checks exhaustively (3 and 4 generations, with and without 
 generation written exactly once before exit, nothing purged before it was written and its links applied,
 no use after purge, links applied before a generation runs, writers serialised, no deadlock, and
 termination under fairness.  OwSimData.tla (function): the sequential reference over integer series with
-exact node kernels; TLC enumerates all graphs within the bounds with the expected datasets.
+exact node kernels (incl. a table-parameter model and two models with prefix-related names) and the meaning of
+the four dataset-selection flags (SelectionTable); TLC enumerates all graphs within the bounds with the expected
+datasets and, per graph, flag combinations with the datasets each must produce.
 Bindings: (1) the REAL ow-sim binary (built from /repo against the fake HDF5) runs a seeded sample of
 those graphs with every command-line output selection (incl. the split-output writer sub-process) and every
 dataset of the output files is compared exactly; (2) hook event logs of perturbed real runs are validated
@@ -37,7 +39,9 @@ def run(ctx):
     protocol(ctx)
     binary = owsim.build_owsim(ctx)
     # (1) B1 on the real binary: two families of graphs (wide batches / three generations)
-    for gcfg, n in (("OwSimData.cfg", 32 if ctx.quick else 500), ("OwSimData_3.cfg", 24 if ctx.quick else 400)):
+    # + table-parameter models (dimension sizing from the parameter file) and prefix-related model names (selection flags)
+    for gcfg, n in (("OwSimData_names.cfg", 16 if ctx.quick else 300), ("OwSimData_tables.cfg", 24 if ctx.quick else 400),
+                    ("OwSimData.cfg", 32 if ctx.quick else 500), ("OwSimData_3.cfg", 24 if ctx.quick else 400)):
         cases, st = owsim.graphs(ctx, gcfg)
         ctx.cov["states"] += st["states_distinct"]
         ctx.cov["transitions"] += st["states_generated"]
